@@ -522,3 +522,28 @@ Proof.
   - assert (ni < 0) by (destruct (Z.le_gt_cases 0 ni) as [Hx|Hx]; [apply Hiff in Hx; lia|lia]).
     destruct (Z.leb_spec 0 ni); [lia|]. reflexivity.
 Qed.
+
+(* ---- the fuel of utf8.len is never what ends it ---- *)
+Lemma len_loop_no_fuel dec s : (forall b v adv, dec b = Some (v, adv) -> 1 <= adv) ->
+  forall fuel i j n, j - i + 1 < Z.of_nat fuel -> (0 < fuel)%nat -> len_loop dec fuel s i j n <> LenFuel.
+Proof.
+  intros Hadv. induction fuel as [|f IH]; intros i j n Hf Hpos; [lia|]. cbn [len_loop].
+  destruct (Z.ltb_spec j i); [discriminate|].
+  destruct (dec (skipn (Z.to_nat i) s)) as [[v adv]|] eqn:E; [|discriminate].
+  apply Hadv in E. apply IH; lia.
+Qed.
+
+Lemma utf8len_no_fuel s i j strict r : in_i64 i -> in_i64 j -> slen s <= maxint ->
+  nl_utf8len s i j strict = Val r -> r <> LenFuel.
+Proof.
+  intros Hi Hj Hs. pose proof (slen_nonneg s) as H0. unfold nl_utf8len.
+  set (i0 := nl_utf8relpos i (slen s)). set (j0 := nl_utf8relpos j (slen s)).
+  assert (Hadv : forall b v adv, nl_utf8decode b strict = Some (v, adv) -> 1 <= adv)
+    by (intros b v adv Hd; exact (decode_adv_pos b strict v adv Hd)).
+  pose proof (len_loop_no_fuel (fun b => nl_utf8decode b strict) s Hadv (S (S (length s))) i0 j0 0) as NF.
+  set (L := len_loop (fun b => nl_utf8decode b strict) (S (S (length s))) s i0 j0 0) in *.
+  destruct (Z.leb_spec 0 i0); cbn [andb negb]; [|discriminate].
+  destruct (Z.leb_spec i0 (slen s)); cbn [negb]; [|discriminate].
+  destruct (Z.ltb_spec j0 (slen s)); cbn [negb]; [|discriminate].
+  intros E. assert (R : r = L) by congruence. rewrite R. apply NF; unfold slen in *; lia.
+Qed.
